@@ -334,3 +334,146 @@ PROPS["C14"] = {"level": "model_checking", "conc": False, "assumptions": [
     "oracle: ArcSwapAbs via Trace_Abs (in a sequential run every returned identity and every count is pinned) + equality of the returned identities across DefaultStrategy, the fallback-only strategy and RwLock<()>",
     "values are the instrumented pointer type wrapped in Option (null included)"]}
 NONTRIVIAL["C14"] = ("distinct sequential programs x strategies", lambda evs: True)
+
+
+# ------------------------------------------------------------------ C15 / C19 / C20: TLC enumerates, the real types answer
+def _tlc_lines(P, spec, cfg_text, tag, wd, extra=(), workers=4):
+    """run TLC on spec with the given cfg text, return (list of decoded JSON payloads printed as <<tag, json>>, states, transitions)"""
+    import os, re, json
+    cfg = os.path.join(P.SPEC, "_run_%s_%d.cfg" % (tag, os.getpid()))
+    with open(cfg, "w") as f:
+        f.write(cfg_text)
+    try:
+        rc, out, wall = P.tlc(spec, os.path.basename(cfg), wd, workers=workers, timeout=1200, extra=list(extra), heap="4g")
+    finally:
+        os.remove(cfg)
+    if "No error has been found" not in out and "-simulate" not in " ".join(extra):
+        raise P.ToolError("TLC failed on %s:\n%s" % (spec, out[-2000:]))
+    res = []
+    for m in re.finditer(r'<<"%s", "(.*?)">>' % tag, out.replace("\n", "")):
+        res.append(json.loads(json.loads('"' + m.group(1) + '"')))
+    st, tr = P.mc_stats(out)
+    return res, st, tr
+
+
+def laws_stage(tier, seed, key, P):
+    import json, os, subprocess, time
+    wd = os.path.join(P.CACHE, "%s-%s-laws" % (key, tier))
+    marker = os.path.join(wd, "laws.json")
+    if os.path.exists(marker):
+        return json.load(open(marker))
+    os.makedirs(wd, exist_ok=True)
+    t0 = time.time()
+    maxlen = 4 if tier == "quick" else 5
+    progs, states, trans = [], 0, 0
+    combos = [("strong", w, x, i) for w in (0, 1) for x in (1, 2) for i in ('<<"p">>', '<<"e">>', '<<"p", "p">>', '<<"p", "e">>')]
+    combos += [("weak", 1, 1, i) for i in ('<<"p">>', '<<"e">>', '<<"p", "e">>')] + [("weak", 1, 2, '<<"p">>')]
+    for kind, wit, xw, init in combos:
+        cfg = ("SPECIFICATION Spec\nCONSTANTS Kind = \"%s\"  MaxLen = %d  Witness = %d  ExtraWeak = %d  InitH <- InitConst\n"
+               "INVARIANTS Sane PrintProgram\nCHECK_DEADLOCK FALSE\n" % (kind, maxlen, wit, xw))
+        mc = os.path.join(P.SPEC, "MC_Laws.tla")
+        with open(mc, "w") as f:
+            f.write("---- MODULE MC_Laws ----\nEXTENDS RefCntLaws\nInitConst == %s\n====\n" % init)
+        r, st, tr = _tlc_lines(P, "MC_Laws.tla", cfg, "LAW", wd)
+        progs += r
+        states += st
+        trans += tr
+    os.remove(os.path.join(P.SPEC, "MC_Laws.tla"))
+    path = os.path.join(wd, "laws.ndjson")
+    with open(path, "w") as f:
+        for p in progs:
+            f.write(json.dumps(p) + "\n")
+    r = subprocess.run([P.ASV, "seq", "laws", path], stdout=subprocess.PIPE, stderr=subprocess.PIPE, text=True, timeout=3000)
+    if r.returncode != 0:
+        raise P.ToolError("asv seq laws failed: " + r.stderr[-1000:])
+    res = json.loads(r.stdout.strip().splitlines()[-1])
+    viols = []
+    for fl in res["failures"][:5]:
+        os.makedirs(P.REPLAYS, exist_ok=True)
+        rp = os.path.join(P.REPLAYS, "C15-%s.json" % P.hashlib.sha256(json.dumps(fl, sort_keys=True).encode()).hexdigest()[:12])
+        json.dump(fl, open(rp, "w"))
+        viols.append({"id": 0, "prop": "C15", "why": fl["why"], "spec": "RefCntLaws", "ev": {}, "fam": "laws", "key": "C15/" + fl["why"][:60], "replay": rp})
+    if res.get("zst_collisions", 0):
+        viols.append({"id": 0, "prop": "C15", "why": "distinct zero-sized values share an address or collide with the empty-slot marker", "spec": "RefCntLaws", "ev": {}, "fam": "laws", "key": "C15/zst"})
+    out = {"viols": viols, "traces": res["runs"],
+           "coverage": {"states": states, "transitions": trans, "law_programs": res["programs"], "law_program_runs": res["runs"],
+                        "law_steps_checked": res["steps"], "max_len": maxlen, "configurations": len(combos),
+                        "pointee_layouts": ["usize", "zero-sized", "align(64)", "String"], "laws_wall_s": round(time.time() - t0, 1)},
+           "samples": [progs[len(progs) // 3]] if progs else []}
+    json.dump(out, open(marker, "w"))
+    return out
+
+
+def traits_stage(tier, seed, key, P):
+    import json, os, subprocess
+    wd = os.path.join(P.CACHE, "%s-traits" % key)
+    os.makedirs(wd, exist_ok=True)
+    want, st, tr = _tlc_lines(P, "AutoTraits.tla", "SPECIFICATION Spec\nINVARIANT Emit\n", "TRAIT", wd, workers=1)
+    r = subprocess.run([P.ASV, "seq", "autotraits"], stdout=subprocess.PIPE, stderr=subprocess.PIPE, text=True, timeout=600)
+    if r.returncode != 0:
+        raise P.ToolError("asv seq autotraits failed: " + r.stderr[-1000:])
+    got = {(x["wrapper"], x["ptr"], x["pointee"], x["strategy"]): x for x in json.loads(r.stdout.strip().splitlines()[-1])["rows"]}
+    viols, checked = [], 0
+    for w in want:
+        k = (w["wrapper"], w["ptr"], w["pointee"], w["strategy"])
+        g = got.get(k)
+        if g is None:
+            raise P.ToolError("no answer from rustc for %s" % (k,))
+        checked += 1
+        for tr_ in ("send", "sync"):
+            unsound = g[tr_] and not w[tr_]
+            illiberal = w["exact"] and w[tr_] and not g[tr_]
+            if unsound or illiberal:
+                why = ("%s<%s<%s>> (%s strategy) is %s although %s" %
+                       (w["wrapper"], w["ptr"], w["pointee"], w["strategy"], tr_.capitalize() if g[tr_] else "not " + tr_.capitalize(),
+                        "the pointer it stores must not be " + ("sent" if tr_ == "send" else "shared") if unsound else "the pointer it stores may be"))
+                viols.append({"id": 0, "prop": "C19", "why": why, "spec": "AutoTraits", "ev": {"expected": w, "rustc": g}, "fam": "traits", "key": "C19/%s/%s/%s/%s" % (k[0], k[1], k[2], tr_)})
+    if viols:
+        os.makedirs(P.REPLAYS, exist_ok=True)
+        rp = os.path.join(P.REPLAYS, "C19-table.json")
+        json.dump(viols, open(rp, "w"))
+        for v in viols:
+            v["replay"] = rp
+    return {"viols": viols[:10], "traces": checked,
+            "coverage": {"states": max(1, st), "transitions": max(1, tr), "table_rows": len(want), "rows_checked": checked,
+                         "explanation": "TLC evaluates the auto-trait algebra of spec/AutoTraits.tla (220 instantiations: 11 wrappers x 5 pointer kinds x 4 pointee classes, 2 strategies) and checks its own soundness clause; rustc decides the same 440 questions about the real types; every row must be sound, and exact except for DynGuard"},
+            "samples": want[:3]}
+
+
+def serde_stage(tier, seed, key, P):
+    import json, os, subprocess
+    wd = os.path.join(P.CACHE, "%s-serde" % key)
+    os.makedirs(wd, exist_ok=True)
+    shapes, st, tr = _tlc_lines(P, "SerdeShapes.tla", "SPECIFICATION Spec\nINVARIANT Emit\n", "SHAPE", wd, workers=1)
+    path = os.path.join(wd, "shapes.ndjson")
+    with open(path, "w") as f:
+        for s in shapes:
+            f.write(json.dumps(s) + "\n")
+    r = subprocess.run([P.ASV, "seq", "serde", path], stdout=subprocess.PIPE, stderr=subprocess.PIPE, text=True, timeout=600)
+    if r.returncode != 0:
+        raise P.ToolError("asv seq serde failed: " + r.stderr[-1000:])
+    res = json.loads(r.stdout.strip().splitlines()[-1])
+    viols = []
+    for fl in res["failures"][:5]:
+        os.makedirs(P.REPLAYS, exist_ok=True)
+        rp = os.path.join(P.REPLAYS, "C20-%s.json" % P.hashlib.sha256(json.dumps(fl, sort_keys=True).encode()).hexdigest()[:12])
+        json.dump(fl, open(rp, "w"))
+        viols.append({"id": 0, "prop": "C20", "why": "[%s strategy] %s" % (fl["strategy"], fl["why"]), "spec": "SerdeShapes", "ev": {}, "fam": "serde", "key": "C20/" + fl["why"][:50], "replay": rp})
+    return {"viols": viols, "traces": res["checks"],
+            "coverage": {"evaluations": res["checks"], "distinct_nontrivial": len(shapes), "value_shapes": len(shapes),
+                         "rule": "value shapes enumerated by TLC from spec/SerdeShapes.tla (scalars, strings, sequences, nested structures) x {ArcSwap, ArcSwapOption Some/None} x 3 default-constructible strategies; non-trivial = every shape"},
+            "samples": shapes[::40]}
+
+
+EXTRA["C15"] = laws_stage
+EXTRA["C19"] = traits_stage
+EXTRA["C20"] = serde_stage
+PROPS["C15"] = {"level": "model_checking", "conc": False, "assumptions": [
+    "operation sequences up to length 4 (quick) / 5 (thorough) from 20 initial count states, enumerated exhaustively by TLC from spec/RefCntLaws.tla with the counts the laws predict",
+    "executed on Arc, Option<Arc>, Rc, Option<Rc>, sync::Weak, rc::Weak for pointee layouts usize, zero-sized, align(64), String; not a proof of memory safety for layouts not enumerated"]}
+PROPS["C19"] = {"level": "other", "conc": False, "assumptions": [
+    "rustc is the decision procedure for the auto traits of the real types; the TLA+ module supplies the expected table and its soundness clause"]}
+PROPS["C20"] = {"level": "exploration", "conc": False, "assumptions": [
+    "relational oracle only: the encoding itself is serde's business; value shapes from spec/SerdeShapes.tla; serde_json as the format"]}
+for _p in ("C15", "C19", "C20"):
+    NONTRIVIAL[_p] = ("see coverage", lambda evs: True)
